@@ -716,6 +716,7 @@ Outcome run_case(Case &c, const RunnerOpts &ro) {
         cfg.step_budget = budget;
         cfg.fill = (uint8_t)(0xA1 + (c.seed % 5) * 0x11);
         sim::reset_captured_stderr();
+        if (c.profile == "alloc") sim::forget_live_blocks();
         monitor_begin_op(c, op, opi);
         sim::begin_run(cfg);
         sim::reset_alloc_count();
@@ -794,6 +795,22 @@ Outcome run_case(Case &c, const RunnerOpts &ro) {
         if (c.profile == "alloc") {
             eval_alloc(x, opi, op, info, xo, A_before, Bin, a_hash0, b_hash0, x_hash0, init_events, st.tasks_created, st.alloc_faults_fired, svx_state);
             if (drv.have_LU()) drv.destroy_LU(op.x.lwork > 0);
+            {   // C17 on every return of the enumeration (query, sufficient, too-small workspace, failed request): nothing may stay behind
+                std::vector<sim::LiveBlock> lb; sim::live_blocks(lb);
+                out.probes["alloc_returns_leak_checked"]++;
+                if (st.alloc_faults_fired > 0) out.probes["alloc_fault_returns_leak_checked"]++;
+                if (!lb.empty()) {
+                    std::map<std::string, std::pair<long, size_t>> bysite;
+                    for (auto &b : lb) { auto &e = bysite[sim::site_name(b.site)]; e.first++; e.second += b.size; }
+                    std::string detail; std::string first_site = sim::site_name(lb[0].site);
+                    for (auto &kv : bysite) detail += fmt("%s: %ld blocks %zu bytes; ", kv.first.c_str(), kv.second.first, kv.second.second);
+                    std::string keep = g_sig_suffix; g_sig_suffix.clear();
+                    add_viol(out, "C17", "leak", fmt("info=%ld, %ld failed request(s): %zu blocks still allocated after the destroy calls: ", info, st.alloc_faults_fired, lb.size()) + detail, opi,
+                             std::string(st.alloc_faults_fired > 0 ? "leak_after_failed_request:" : "leak:") + first_site);
+                    g_sig_suffix = keep;
+                    sim::forget_live_blocks();
+                }
+            }
             continue;
         }
         if (c.profile == "sing") {
